@@ -27,6 +27,8 @@ OrthTol  == 100        \* 1e-6 on max|F^T F - I|
 NormTol  == 100        \* 1e-6 on | ||column|| - 1 |
 ProjTol  == 1000       \* 1e-5 relative: core vs projection of the data on the factors
 WarmTol  == 100        \* 1e-6 relative: dense(result) vs dense(initialisation)
+WarmFine == 1000       \* 1e-11 (units of 1e-14): with a ZERO budget the start is returned, not recomputed: equal up to the rounding of one fold
+TwinFine == 1000000    \* 1e-8  (units of 1e-14): the weighted and the weight-absorbed form of one start give the same iterates
 
 IsInt(x) == -2000000000 <= x /\ x <= 2000000000   \* finite: the harness logs nan/inf/out-of-range as integer sentinels above this
 Abs(x) == IF x < 0 THEN -x ELSE x
@@ -173,9 +175,11 @@ V14(e) ==
     IF ~("warm" \in DOMAIN e) THEN "ok"
     ELSE LET w == e.warm IN
         IF e.k = 0 /\ ~(IsInt(w.init_dev) /\ w.init_dev <= WarmTol) THEN "ZeroBudgetDoesNotReturnInit"
+        ELSE IF e.k = 0 /\ "init_fine" \in DOMAIN w /\ ~(IsInt(w.init_fine) /\ w.init_fine <= WarmFine) THEN "ZeroBudgetResultIsNotExactlyTheStart"
         ELSE IF \E m \in FixedEff(c) : ~w.bit_identical[m + 1] THEN "FixedModeChanged"
         ELSE IF AllFixedShortCircuit(c) /\ ~(\A m \in 1..cc.order : w.bit_identical[m]) THEN "AllFixedChanged"
         ELSE IF "twin_dev" \in DOMAIN w /\ ~(IsInt(w.twin_dev) /\ w.twin_dev <= WarmTol) THEN "AbsorbedWeightsDiverge"
+        ELSE IF "twin_fine" \in DOMAIN w /\ e.cond <= 3 /\ ~(IsInt(w.twin_fine) /\ w.twin_fine <= TwinFine) THEN "AbsorbedWeightsDivergeSlightly"
         ELSE "ok"
 
 ----------------------------------------------------------------------------
